@@ -3,7 +3,7 @@
      X <pub|~> <sys|~> <roothex> <textual> <anon>
                                          -> ok <langid> num <n> | ok <langid> idx <hexstring> | err   (xml_select + header_pubid) *)
 open Model
-open Conv_s
+open Conv
 
 let bit b i = (b lsr i) land 1 = 1
 let ascii_of_char (c : char) : ascii =
